@@ -8,6 +8,7 @@ from vh import progs as PG
 from vh import gen as G
 
 GARBAGE = "@~^?`|\\"
+BARE = ["print", "call", "write", "read", "allocate", "deallocate", "goto", "use", "if", "where", "forall", "open", "close", "nullify"]
 
 
 def units(tier):
@@ -25,6 +26,9 @@ def units(tier):
             std = "f2008" if (f08 or rot % 2) else "f2003"
             two = (rot % 3 == 0)
             us.append(dict(h="bad_stmt", prog=p, line=i, two=two, n=1 if (q or rot % 2) else 2, std=std, ic=bool(rot % 4), cost=2))
+            if i > 0 and (not q or rot % 4 == 0):
+                # garbage = a bare keyword that needs more text to be a statement; unit name symbolic
+                us.append(dict(h="bad_stmt", prog=p, line=i, two=False, kw=rot % len(BARE), n=0, std=std, ic=True, symname=bool(rot % 8 == 0), cost=3))
     return us
 
 
@@ -39,9 +43,15 @@ def meta(tier):
 def bad_stmt(ctx):
     p = ctx.p
     C.reset()
-    src = G.program_text(p["prog"], {})
+    vals = {}
+    if p.get("symname"):
+        vals = G.make_holes(ctx, {"n8": 2})
+    src = G.program_text(p["prog"], vals)
     lines = [l for l in src.split("\n") if len(l) > 0]
-    g = ctx.chars("g", p["n"], GARBAGE)
+    if p.get("kw") is not None:
+        g = BARE[p["kw"]]
+    else:
+        g = ctx.chars("g", p["n"], GARBAGE)
     i = p["line"]
     if p["two"]:
         g2 = ctx.chars("h", 1, GARBAGE)
